@@ -25,6 +25,7 @@ for _p in ('C06', 'C11'):
 CONSTS.setdefault('C15', []).append('CodeAgreeRtt')
 for _p in ('C07', 'C08'):
     CONSTS.setdefault(_p, []).append('CodeAgreeIter')           # the agent's protected-attribute iterator
+CONSTS.setdefault('C13', []).append('CodeAgreeAttrs')           # message.rs StunAttributes::add / remove = Model.add_attr / remove
 # raw.rs (header, RawMessage, attribute iterator, get_input_text) = Wire.hdr_valid / Tlv.dec_tlvs / InputText.input_text
 for _p in ('C03', 'C04', 'C09', 'C10', 'C18'):
     CONSTS.setdefault(_p, []).append('CodeAgreeRaw')
